@@ -44,7 +44,7 @@ def strategy(ctx):
 
 
 def budget(ctx):
-    return dict(max_examples=ctx.pick(1600, 16000), shards=16)
+    return dict(max_examples=ctx.pick(1600, 64000), shards=16)
 
 
 def warmup():
